@@ -11,6 +11,7 @@ from __future__ import annotations
 
 import asyncio
 import io
+import sys
 import os
 import re
 from typing import Any, Callable, Dict, Iterable, List, Optional, Sequence, Tuple
@@ -80,6 +81,11 @@ class InputStream:
         self._eof_seen = False
 
     def read(self, size: Optional[int] = -1) -> bytes:
+        if size is not None and not isinstance(size, int):
+            raise TypeError(f"integer argument expected, got {type(size).__name__}")  # what io readers do
+        if size is not None and size > sys.maxsize:
+            # io.BytesIO / BufferedReader / socket files: a size that does not fit a C ssize_t is refused
+            raise OverflowError("Python int too large to convert to C ssize_t")
         self.reads += 1
         if not self.chunks:
             if self._eof_seen:
@@ -117,7 +123,7 @@ def make_environ(rq: Dict[str, Any]) -> Dict[str, Any]:
         "QUERY_STRING": rq["query"].decode("latin-1"),
         "SERVER_NAME": str(server[0]),
         "SERVER_PORT": str(server[1]),
-        "SERVER_PROTOCOL": "HTTP/1.1",
+        "SERVER_PROTOCOL": rq.get("protocol") or "HTTP/1.1",
         "wsgi.version": (1, 0),
         "wsgi.url_scheme": rq.get("scheme", "http"),
         "wsgi.input": InputStream(rq.get("body", ())),
@@ -155,7 +161,7 @@ def make_scope(rq: Dict[str, Any]) -> Dict[str, Any]:
     scope: Dict[str, Any] = {
         "type": "http",
         "asgi": {"version": "3.0", "spec_version": "2.3"},
-        "http_version": "1.1",
+        "http_version": {"HTTP/1.0": "1.0", "HTTP/2": "2", "HTTP/3": "3"}.get(rq.get("protocol") or "", "1.1"),
         "method": rq["method"],
         "scheme": rq.get("scheme", "http"),
         "path": path,
